@@ -39,7 +39,7 @@ int sp_ienv(int ispec)
 void vf_set_defaults_tune(void) { for (int i = 1; i <= 7; i++) vf_tune[i] = slu_default_sp_ienv(i); }
 
 /* ------------------------------------------------------------------ ledger */
-#define HT_BITS 16
+#define HT_BITS 10
 static vf_block *ht = NULL; static size_t ht_cap = 0, ht_n = 0;
 static pthread_mutex_t ht_mu = PTHREAD_MUTEX_INITIALIZER;
 static inline size_t hp(const void *p, size_t cap) { uint64_t x = (uint64_t)(uintptr_t)p; x ^= x >> 17; x *= 0x9E3779B97F4A7C15ull; x ^= x >> 29; return (size_t)x & (cap - 1); }
